@@ -1,1 +1,484 @@
-(** placeholder, filled below *)
+(** * C13 at the level of the TEXT: what [disable_comments] and
+    [instances_report_mode] do to the ShExC document.
+
+    The serialiser model ([Model/SerialShexc.v]) produces a list of lines.  Here
+    every line is given its STRUCTURE ([sline]):
+
+      [LCode code trail]   a line  [code ++ trail ++ "\n"]  where [trail] is either
+                           empty or blanks followed by a comment ["# ..."] (the
+                           frequency of a constraint, the instance count of a shape);
+      [LNote text]         a whole-line comment  [text ++ "\n"]  (the comments
+                           attached to a statement, [indent 4 ++ "# ..."]).
+
+    [render_slines] is the serialiser with that structure kept, and
+    [render_lines_flat] proves that flattening it gives [render_lines] byte for
+    byte, for every configuration and every shape list (errors included).  The
+    option theorems are then statements about the structured document:
+
+    - [uncomment] removes every comment: whole-line comments are dropped, every
+      trail is emptied, the code parts stay;
+    - [skeleton] forgets the CONTENT of the comment segments and keeps code and
+      line structure. *)
+From Coq Require Import List Ascii String ZArith NArith Bool Lia.
+From Shexer Require Import Lib.PyStr Lib.Dict Gen.Consts Spec.Rdf Model.Tracker Model.Profiler Model.Tokens
+     Model.Freq Model.Shexing Model.SerialShexc Model.Run.
+From Shexer Require Import Proofs.ShexBasics Proofs.OptionLemmas Proofs.EndToEnd2.
+Import ListNotations.
+
+Inductive sline :=
+| LCode (code trail : str)
+| LNote (text : str).
+
+Definition flat (l : sline) : str :=
+  match l with
+  | LCode c t => c ++ t ++ nl
+  | LNote t => t ++ nl
+  end.
+
+Definition flat_text (sl : list sline) : str := List.concat (map flat sl).
+
+(** ** the serialiser, structure kept *)
+
+(** the constraint itself (no indentation, no trail, no newline); [None] = ValueError.
+    Reads [z_ns] and [z_tau] only. *)
+Definition stmt_code (z : sercfg) (s : stmt) (is_last : bool) : option str :=
+  let gap := c_SPACES_GAP_BETWEEN_TOKENS in
+  match tune_token (z_ns z) (s_prop s) with
+  | None => None
+  | Some prop =>
+    if s_choice s then
+      match all_some (map (target_element z (s_prop s)) (s_types s)) with
+      | None => None
+      | Some targets =>
+        Some ((if s_inv s then Str "^" ++ gap else []) ++ prop ++ gap ++
+              join (gap ++ Str "OR" ++ gap) targets ++ gap ++
+              card_repr true (s_card s) ++ (if is_last then [] else Str ";"))
+      end
+    else
+      match target_element z (s_prop s) (s_type s) with
+      | None => None
+      | Some target =>
+        Some ((if s_inv s then Str "^" ++ gap else []) ++ prop ++ gap ++ target ++ gap ++
+              card_repr true (s_card s) ++ (if is_last then [] else Str ";"))
+      end
+  end.
+
+(** the frequency comment at the end of a constraint line *)
+Definition stmt_trail (z : sercfg) (cnt : N) (s : stmt) (code : str) : str :=
+  if s_choice s then []
+  else match s_card s with
+       | CStar | COpt => []
+       | _ => if z_disable_comments z then []
+              else final_spaces code ++ probability_representation z cnt (s_prob s) (s_nocc s)
+       end.
+
+Definition stmt_notes (z : sercfg) (cnt : N) (s : stmt) : list sline :=
+  map (fun k => LNote (indent 4 ++ comment_text z cnt k)) (s_comments s).
+
+Definition statement_slines (z : sercfg) (cnt : N) (s : stmt) (is_last : bool) : option (list sline) :=
+  match stmt_code z s is_last with
+  | None => None
+  | Some code => Some (LCode (indent 1 ++ code) (stmt_trail z cnt s code) :: stmt_notes z cnt s)
+  end.
+
+Fixpoint statements_slines (z : sercfg) (cnt : N) (l : list stmt) : option (list sline) :=
+  match l with
+  | [] => Some []
+  | [s] => statement_slines z cnt s true
+  | s :: l' =>
+    match statement_slines z cnt s false, statements_slines z cnt l' with
+    | Some a, Some b => Some (a ++ b)
+    | _, _ => None
+    end
+  end.
+
+Definition shape_slines (z : sercfg) (sh : shape) : option (list sline) :=
+  match prefixize_shape_name (z_ns z) (sh_name sh), statements_slines z (sh_n sh) (sh_stmts sh) with
+  | Some name, Some body =>
+    Some ([LCode name (instance_count z (sh_n sh)); LCode (Str "{") []] ++ body ++
+          [LCode (Str "}") []; LCode [] []; LCode [] []])
+  | _, _ => None
+  end.
+
+Definition prefix_slines (ns : nsdict) : list sline :=
+  map (fun np : str * str => LCode (Str "PREFIX " ++ snd np ++ Str ": <" ++ fst np ++ Str ">") []) ns
+  ++ [LCode [] []].
+
+Fixpoint shapes_slines (z : sercfg) (l : list shape) : option (list sline) :=
+  match l with
+  | [] => Some []
+  | sh :: l' =>
+    match shape_slines z sh, shapes_slines z l' with
+    | Some a, Some b => Some (a ++ b)
+    | _, _ => None
+    end
+  end.
+
+Definition render_slines (z : sercfg) (l : list shape) : option (list sline) :=
+  match shapes_slines z l with
+  | Some ls => Some (prefix_slines (z_ns z) ++ ls)
+  | None => None
+  end.
+
+(** ** flattening gives the serialiser's lines, byte for byte *)
+
+Lemma statement_lines_flat z cnt s is_last :
+  statement_lines z cnt s is_last = option_map (map flat) (statement_slines z cnt s is_last).
+Proof.
+  unfold statement_lines, statement_slines, stmt_code, stmt_trail, stmt_notes.
+  destruct (tune_token (z_ns z) (s_prop s)) as [prop|]; [|reflexivity].
+  destruct (s_choice s).
+  - destruct (all_some _) as [targets|]; [|reflexivity].
+    cbn [option_map map flat]. rewrite map_map. cbn [flat].
+    unfold nl. rewrite <- !app_assoc. reflexivity.
+  - destruct (target_element z (s_prop s) (s_type s)) as [target|]; [|reflexivity].
+    cbn [option_map map flat]. rewrite map_map. cbn [flat]. unfold nl.
+    f_equal. f_equal.
+    destruct (s_card s); try (destruct (z_disable_comments z));
+      rewrite <- ?app_assoc; cbn [app]; reflexivity.
+Qed.
+
+Lemma statements_lines_flat z cnt l :
+  statements_lines z cnt l = option_map (map flat) (statements_slines z cnt l).
+Proof.
+  induction l as [|s l IH]; [reflexivity|].
+  destruct l as [|s' l'].
+  - apply statement_lines_flat.
+  - change (statements_lines z cnt (s :: s' :: l'))
+      with (match statement_lines z cnt s false, statements_lines z cnt (s' :: l') with
+            | Some a, Some b => Some (a ++ b) | _, _ => None end).
+    change (statements_slines z cnt (s :: s' :: l'))
+      with (match statement_slines z cnt s false, statements_slines z cnt (s' :: l') with
+            | Some a, Some b => Some (a ++ b) | _, _ => None end).
+    rewrite IH, statement_lines_flat.
+    destruct (statement_slines z cnt s false) as [a|]; [|reflexivity].
+    destruct (statements_slines z cnt (s' :: l')) as [b|]; [|reflexivity].
+    cbn [option_map]. now rewrite map_app.
+Qed.
+
+Lemma shape_lines_flat z sh :
+  shape_lines z sh [] [] = option_map (map flat) (shape_slines z sh).
+Proof.
+  unfold shape_lines, shape_slines. rewrite statements_lines_flat.
+  destruct (prefixize_shape_name (z_ns z) (sh_name sh)) as [name|]; [|reflexivity].
+  destruct (statements_slines z (sh_n sh) (sh_stmts sh)) as [body|]; [|reflexivity].
+  cbn [option_map]. rewrite !map_app. reflexivity.
+Qed.
+
+Lemma shapes_lines_flat z l :
+  shapes_lines z l = option_map (map flat) (shapes_slines z l).
+Proof.
+  induction l as [|sh l IH]; [reflexivity|].
+  cbn [shapes_lines shapes_slines]. rewrite IH, shape_lines_flat.
+  destruct (shape_slines z sh) as [a|]; [|reflexivity].
+  destruct (shapes_slines z l) as [b|]; [|reflexivity].
+  cbn [option_map]. now rewrite map_app.
+Qed.
+
+Lemma prefix_lines_flat ns : prefix_lines ns = map flat (prefix_slines ns).
+Proof.
+  unfold prefix_lines, prefix_slines. rewrite map_app, map_map. cbn [map flat app].
+  f_equal. apply map_ext. intros [n p]. cbn [flat fst snd app]. now rewrite <- !app_assoc.
+Qed.
+
+Theorem render_lines_flat z l :
+  render_lines z l = option_map (map flat) (render_slines z l).
+Proof.
+  unfold render_lines, render_slines. rewrite shapes_lines_flat.
+  destruct (shapes_slines z l) as [ls|]; [|reflexivity].
+  cbn [option_map]. now rewrite map_app, prefix_lines_flat.
+Qed.
+
+Theorem render_flat z l : render z l = option_map flat_text (render_slines z l).
+Proof.
+  unfold render. rewrite render_lines_flat. destruct (render_slines z l); reflexivity.
+Qed.
+
+(** ** removing the comments of a structured document *)
+Definition uncomment_line (l : sline) : list sline :=
+  match l with LCode c _ => [LCode c []] | LNote _ => [] end.
+
+Definition uncomment (sl : list sline) : list sline := flat_map uncomment_line sl.
+
+(** forgetting what the comment segments say, keeping where they are *)
+Definition skeleton_line (l : sline) : sline :=
+  match l with LCode c _ => LCode c [] | LNote _ => LNote [] end.
+
+Definition skeleton (sl : list sline) : list sline := map skeleton_line sl.
+
+(** two serialiser configurations that render every token alike *)
+Definition same_tokens (z1 z2 : sercfg) : Prop := z_ns z1 = z_ns z2 /\ z_tau z1 = z_tau z2.
+
+Lemma uncomment_app a b : uncomment (a ++ b) = uncomment a ++ uncomment b.
+Proof. apply flat_map_app. Qed.
+
+Lemma skeleton_app a b : skeleton (a ++ b) = skeleton a ++ skeleton b.
+Proof. apply map_app. Qed.
+
+Lemma target_element_agree z1 z2 p t : same_tokens z1 z2 -> target_element z1 p t = target_element z2 p t.
+Proof. intros [H1 H2]. unfold target_element. now rewrite H1, H2. Qed.
+
+Lemma stmt_code_agree z1 z2 s b : same_tokens z1 z2 -> stmt_code z1 s b = stmt_code z2 s b.
+Proof.
+  intros H. pose proof H as [H1 H2]. unfold stmt_code. rewrite H1.
+  destruct (tune_token (z_ns z2) (s_prop s)); [|reflexivity].
+  rewrite (target_element_agree z1 z2 (s_prop s) (s_type s) H).
+  replace (map (target_element z1 (s_prop s)) (s_types s)) with (map (target_element z2 (s_prop s)) (s_types s)).
+  - reflexivity.
+  - apply map_ext. intros t. symmetry. now apply target_element_agree.
+Qed.
+
+Lemma stmt_code_drop z s b : stmt_code z (drop_comments s) b = stmt_code z s b.
+Proof. reflexivity. Qed.
+
+Lemma uncomment_notes z cnt s : uncomment (stmt_notes z cnt s) = [].
+Proof. unfold stmt_notes. induction (s_comments s); [reflexivity | exact IHl]. Qed.
+
+Lemma skeleton_notes z cnt s : skeleton (stmt_notes z cnt s) = map (fun _ => LNote []) (s_comments s).
+Proof. unfold stmt_notes, skeleton. rewrite map_map. reflexivity. Qed.
+
+Lemma stmt_trail_disabled z cnt s code : z_disable_comments z = true -> stmt_trail z cnt s code = [].
+Proof. intros H. unfold stmt_trail. rewrite H. destruct (s_choice s), (s_card s); reflexivity. Qed.
+
+(** *** B2: [disable_comments] *)
+Lemma statement_slines_uncomment z z' cnt s b :
+  same_tokens z z' -> z_disable_comments z' = true ->
+  statement_slines z' cnt (drop_comments s) b = option_map uncomment (statement_slines z cnt s b).
+Proof.
+  intros Ht Hd. unfold statement_slines.
+  rewrite stmt_code_drop, <- (stmt_code_agree z z' s b Ht).
+  destruct (stmt_code z s b) as [code|]; [|reflexivity].
+  cbn [option_map]. unfold uncomment at 1. cbn [flat_map uncomment_line app].
+  fold (uncomment (stmt_notes z cnt s)). rewrite uncomment_notes.
+  rewrite (stmt_trail_disabled z' cnt _ code Hd). reflexivity.
+Qed.
+
+Lemma statements_slines_uncomment z z' cnt l :
+  same_tokens z z' -> z_disable_comments z' = true ->
+  statements_slines z' cnt (map drop_comments l) = option_map uncomment (statements_slines z cnt l).
+Proof.
+  intros Ht Hd. induction l as [|s l IH]; [reflexivity|].
+  destruct l as [|s' l'].
+  - apply statement_slines_uncomment; assumption.
+  - change (statements_slines z' cnt (map drop_comments (s :: s' :: l')))
+      with (match statement_slines z' cnt (drop_comments s) false,
+                  statements_slines z' cnt (map drop_comments (s' :: l')) with
+            | Some a, Some b => Some (a ++ b) | _, _ => None end).
+    change (statements_slines z cnt (s :: s' :: l'))
+      with (match statement_slines z cnt s false, statements_slines z cnt (s' :: l') with
+            | Some a, Some b => Some (a ++ b) | _, _ => None end).
+    rewrite IH, (statement_slines_uncomment z z' cnt s false Ht Hd).
+    destruct (statement_slines z cnt s false) as [a|]; [|reflexivity].
+    destruct (statements_slines z cnt (s' :: l')) as [b|]; [|reflexivity].
+    cbn [option_map]. now rewrite uncomment_app.
+Qed.
+
+Lemma instance_count_disabled z n : z_disable_comments z = true -> instance_count z n = [].
+Proof. intros H. unfold instance_count. rewrite H. destruct (z_mode z); reflexivity. Qed.
+
+Lemma shape_slines_uncomment z z' sh :
+  same_tokens z z' -> z_disable_comments z' = true ->
+  shape_slines z' (map_stmts drop_comments sh) = option_map uncomment (shape_slines z sh).
+Proof.
+  intros Ht Hd. pose proof Ht as [H1 H2]. unfold shape_slines.
+  change (sh_name (map_stmts drop_comments sh)) with (sh_name sh).
+  change (sh_n (map_stmts drop_comments sh)) with (sh_n sh).
+  change (sh_stmts (map_stmts drop_comments sh)) with (map drop_comments (sh_stmts sh)).
+  rewrite (statements_slines_uncomment z z' _ _ Ht Hd), <- H1.
+  destruct (prefixize_shape_name (z_ns z) (sh_name sh)) as [name|]; [|reflexivity].
+  destruct (statements_slines z (sh_n sh) (sh_stmts sh)) as [body|]; [|reflexivity].
+  cbn [option_map]. rewrite !uncomment_app. rewrite (instance_count_disabled z' _ Hd). reflexivity.
+Qed.
+
+Lemma shapes_slines_uncomment z z' l :
+  same_tokens z z' -> z_disable_comments z' = true ->
+  shapes_slines z' (map_shapes drop_comments l) = option_map uncomment (shapes_slines z l).
+Proof.
+  intros Ht Hd. induction l as [|sh l IH]; [reflexivity|].
+  unfold map_shapes in *. cbn [map shapes_slines]. rewrite IH, (shape_slines_uncomment z z' sh Ht Hd).
+  destruct (shape_slines z sh) as [a|]; [|reflexivity].
+  destruct (shapes_slines z l) as [b|]; [|reflexivity].
+  cbn [option_map]. now rewrite uncomment_app.
+Qed.
+
+Lemma uncomment_prefix ns : uncomment (prefix_slines ns) = prefix_slines ns.
+Proof.
+  unfold prefix_slines. rewrite uncomment_app. f_equal.
+  induction ns as [|np ns IH]; [reflexivity|]. cbn [map]. unfold uncomment in *. cbn [flat_map uncomment_line app].
+  now rewrite IH.
+Qed.
+
+(** the document rendered with [disable_comments] from the shapes without comments IS the
+    document rendered with comments, every comment removed; the two renderings fail together.
+    ([z'] may even use another report mode.) *)
+Theorem render_slines_disable_comments z z' l :
+  same_tokens z z' -> z_disable_comments z' = true ->
+  render_slines z' (map_shapes drop_comments l) = option_map uncomment (render_slines z l).
+Proof.
+  intros Ht Hd. pose proof Ht as [H1 H2]. unfold render_slines.
+  rewrite (shapes_slines_uncomment z z' l Ht Hd), <- H1.
+  destruct (shapes_slines z l) as [ls|]; [|reflexivity].
+  cbn [option_map]. now rewrite uncomment_app, uncomment_prefix.
+Qed.
+
+Theorem text_disable_comments z z' l :
+  same_tokens z z' -> z_disable_comments z' = true ->
+  render z' (map_shapes drop_comments l) = option_map (fun sl => flat_text (uncomment sl)) (render_slines z l) /\
+  render z l = option_map flat_text (render_slines z l).
+Proof.
+  intros Ht Hd. split; [|apply render_flat].
+  rewrite render_flat, (render_slines_disable_comments z z' l Ht Hd).
+  destruct (render_slines z l); reflexivity.
+Qed.
+
+(** *** B1: everything outside the comment segments reads [z_ns] and [z_tau] only *)
+Lemma statement_slines_skeleton z1 z2 cnt s b :
+  same_tokens z1 z2 ->
+  option_map skeleton (statement_slines z1 cnt s b) = option_map skeleton (statement_slines z2 cnt s b).
+Proof.
+  intros Ht. unfold statement_slines. rewrite (stmt_code_agree z1 z2 s b Ht).
+  destruct (stmt_code z2 s b) as [code|]; [|reflexivity].
+  cbn [option_map]. f_equal.
+  change (skeleton_line (LCode (indent 1 ++ code) (stmt_trail z1 cnt s code)) :: skeleton (stmt_notes z1 cnt s)
+          = skeleton_line (LCode (indent 1 ++ code) (stmt_trail z2 cnt s code)) :: skeleton (stmt_notes z2 cnt s)).
+  now rewrite !skeleton_notes.
+Qed.
+
+Lemma statements_slines_skeleton z1 z2 cnt l :
+  same_tokens z1 z2 ->
+  option_map skeleton (statements_slines z1 cnt l) = option_map skeleton (statements_slines z2 cnt l).
+Proof.
+  intros Ht. induction l as [|s l IH]; [reflexivity|].
+  destruct l as [|s' l'].
+  - apply statement_slines_skeleton; assumption.
+  - change (statements_slines z1 cnt (s :: s' :: l'))
+      with (match statement_slines z1 cnt s false, statements_slines z1 cnt (s' :: l') with
+            | Some a, Some b => Some (a ++ b) | _, _ => None end).
+    change (statements_slines z2 cnt (s :: s' :: l'))
+      with (match statement_slines z2 cnt s false, statements_slines z2 cnt (s' :: l') with
+            | Some a, Some b => Some (a ++ b) | _, _ => None end).
+    pose proof (statement_slines_skeleton z1 z2 cnt s false Ht) as Hs.
+    destruct (statement_slines z1 cnt s false) as [a1|], (statement_slines z2 cnt s false) as [a2|];
+      try discriminate Hs; [|reflexivity].
+    destruct (statements_slines z1 cnt (s' :: l')) as [b1|], (statements_slines z2 cnt (s' :: l')) as [b2|];
+      try discriminate IH; [|reflexivity].
+    cbn [option_map] in *. rewrite !skeleton_app. inversion Hs. inversion IH. congruence.
+Qed.
+
+Lemma shape_slines_skeleton z1 z2 sh :
+  same_tokens z1 z2 ->
+  option_map skeleton (shape_slines z1 sh) = option_map skeleton (shape_slines z2 sh).
+Proof.
+  intros Ht. pose proof Ht as [H1 H2]. unfold shape_slines. rewrite H1.
+  destruct (prefixize_shape_name (z_ns z2) (sh_name sh)) as [name|]; [|reflexivity].
+  pose proof (statements_slines_skeleton z1 z2 (sh_n sh) (sh_stmts sh) Ht) as Hs.
+  destruct (statements_slines z1 (sh_n sh) (sh_stmts sh)) as [b1|],
+           (statements_slines z2 (sh_n sh) (sh_stmts sh)) as [b2|]; try discriminate Hs; [|reflexivity].
+  cbn [option_map] in *. inversion Hs as [Hb].
+  unfold skeleton in *. cbn [map app skeleton_line]. rewrite !map_app, Hb. reflexivity.
+Qed.
+
+Lemma shapes_slines_skeleton z1 z2 l :
+  same_tokens z1 z2 ->
+  option_map skeleton (shapes_slines z1 l) = option_map skeleton (shapes_slines z2 l).
+Proof.
+  intros Ht. induction l as [|sh l IH]; [reflexivity|].
+  cbn [shapes_slines].
+  pose proof (shape_slines_skeleton z1 z2 sh Ht) as Hs.
+  destruct (shape_slines z1 sh) as [a1|], (shape_slines z2 sh) as [a2|]; try discriminate Hs; [|reflexivity].
+  destruct (shapes_slines z1 l) as [b1|], (shapes_slines z2 l) as [b2|]; try discriminate IH; [|reflexivity].
+  cbn [option_map] in *. rewrite !skeleton_app. inversion Hs. inversion IH. congruence.
+Qed.
+
+(** two renderings of the same shapes under configurations that differ in the report mode
+    (or in [disable_comments]) have the same lines, the same code on every line and whole-line
+    comments at the same places: they differ only INSIDE the comment segments *)
+Theorem render_slines_skeleton z1 z2 l :
+  same_tokens z1 z2 ->
+  option_map skeleton (render_slines z1 l) = option_map skeleton (render_slines z2 l).
+Proof.
+  intros Ht. pose proof Ht as [H1 H2]. unfold render_slines. rewrite H1.
+  pose proof (shapes_slines_skeleton z1 z2 l Ht) as Hs.
+  destruct (shapes_slines z1 l) as [b1|], (shapes_slines z2 l) as [b2|]; try discriminate Hs; [|reflexivity].
+  cbn [option_map] in *. rewrite !skeleton_app. inversion Hs. congruence.
+Qed.
+
+(** ** run level *)
+Definition sercfg_of (c : rcfg) (ns : nsdict) : sercfg :=
+  {| z_ns := ns; z_tau := r_tau c; z_disable_comments := r_disable_comments c; z_mode := r_mode c |}.
+
+(** [run_shexc] with the line structure kept *)
+Definition run_slines (fa : FreqAlg) (c : rcfg) (thr : F fa) (g : graph) : list sline + rerr :=
+  match run_shapes fa c thr g with
+  | inr e => inr e
+  | inl (ns, shapes) =>
+    match render_slines (sercfg_of c ns) shapes with
+    | Some sl => inl sl
+    | None => inr REValue
+    end
+  end.
+
+Theorem run_shexc_flat fa c thr g :
+  run_shexc fa c thr g = map_res flat_text (run_slines fa c thr g).
+Proof.
+  unfold run_shexc, run_slines. destruct (run_shapes fa c thr g) as [[ns shapes]|e]; [|reflexivity].
+  fold (sercfg_of c ns). rewrite render_flat.
+  destruct (render_slines (sercfg_of c ns) shapes); reflexivity.
+Qed.
+
+(** *** B3 *)
+Theorem run_slines_disable_comments fa c (thr : F fa) g :
+  run_slines fa (rwith_disable_comments true c) thr g =
+  map_res uncomment (run_slines fa (rwith_disable_comments false c) thr g).
+Proof.
+  unfold run_slines. rewrite run_disable_comments.
+  destruct (run_shapes fa (rwith_disable_comments false c) thr g) as [[ns shapes]|e]; [|reflexivity].
+  cbn [map_res on_shapes].
+  rewrite (render_slines_disable_comments (sercfg_of (rwith_disable_comments false c) ns)
+             (sercfg_of (rwith_disable_comments true c) ns) shapes);
+    [|split; reflexivity|reflexivity].
+  destruct (render_slines _ shapes); reflexivity.
+Qed.
+
+(** the text of the run with [disable_comments] is the text of the run without it, every
+    comment removed; the two runs fail together, with the same error *)
+Theorem run_shexc_disable_comments fa c (thr : F fa) g :
+  run_shexc fa (rwith_disable_comments true c) thr g =
+    map_res (fun sl => flat_text (uncomment sl)) (run_slines fa (rwith_disable_comments false c) thr g) /\
+  run_shexc fa (rwith_disable_comments false c) thr g =
+    map_res flat_text (run_slines fa (rwith_disable_comments false c) thr g).
+Proof.
+  split; [|apply run_shexc_flat].
+  rewrite run_shexc_flat, run_slines_disable_comments.
+  destruct (run_slines fa (rwith_disable_comments false c) thr g); reflexivity.
+Qed.
+
+(** *** B1 at run level: [instances_report_mode] *)
+Theorem run_slines_report_mode fa m c (thr : F fa) g :
+  map_res skeleton (run_slines fa (with_mode m c) thr g) = map_res skeleton (run_slines fa c thr g).
+Proof.
+  unfold run_slines. rewrite O6_mode.
+  destruct (run_shapes fa c thr g) as [[ns shapes]|e]; [|reflexivity].
+  pose proof (render_slines_skeleton (sercfg_of (with_mode m c) ns) (sercfg_of c ns) shapes
+                (conj eq_refl eq_refl)) as H.
+  destruct (render_slines (sercfg_of (with_mode m c) ns) shapes),
+           (render_slines (sercfg_of c ns) shapes); try discriminate H; [|reflexivity].
+  cbn [option_map map_res] in *. inversion H. congruence.
+Qed.
+
+(** with comments disabled the report mode is invisible in the text *)
+Theorem run_shexc_report_mode_no_comments fa m c (thr : F fa) g :
+  run_shexc fa (with_mode m (rwith_disable_comments true c)) thr g =
+  run_shexc fa (rwith_disable_comments true c) thr g.
+Proof.
+  rewrite !run_shexc_flat. f_equal. unfold run_slines. rewrite O6_mode, run_disable_comments.
+  destruct (run_shapes fa (rwith_disable_comments false c) thr g) as [[ns shapes]|e]; [|reflexivity].
+  cbn [map_res on_shapes].
+  rewrite (render_slines_disable_comments (sercfg_of (rwith_disable_comments false c) ns)
+             (sercfg_of (with_mode m (rwith_disable_comments true c)) ns) shapes);
+    [|split; reflexivity|reflexivity].
+  rewrite (render_slines_disable_comments (sercfg_of (rwith_disable_comments false c) ns)
+             (sercfg_of (rwith_disable_comments true c) ns) shapes);
+    [|split; reflexivity|reflexivity].
+  reflexivity.
+Qed.
